@@ -17,6 +17,7 @@ import (
 	"fmt"
 	"hash"
 	"sync"
+	"sync/atomic"
 	"testing"
 	"testing/synctest"
 	"time"
@@ -90,6 +91,10 @@ func vfWireConfidentiality(res *vfResult, p *vfPair, cfg vfCfg, payloads [][]byt
 				continue
 			}
 			switch {
+			case rc.Type == 25 && rc.Epoch == 0 && vfInnerType(rc.Body) == 21:
+				// An alert sent before any keys exist, framed as tls12_cid because the connection ID was already
+				// negotiated: the inner plaintext is an alert, nothing confidential. Counted (format oddity).
+				res.Count("cid_framed_plaintext_alert_epoch0", 1)
 			case (rc.Type == 23 || rc.Type == 25) && rc.Epoch == 0:
 				res.Violate(fmt.Sprintf("C07:application-record-epoch0:%s", ver),
 					fmt.Sprintf("%s: %s emitted a record of type %d with epoch 0", scenario, w.From, rc.Type), replay)
@@ -190,6 +195,17 @@ func vfC07Exporter(res *vfResult, p *vfPair, scenario string) {
 	}
 }
 
+// vfInnerType: the real content type of an unencrypted DTLSInnerPlaintext (last non-zero byte).
+func vfInnerType(b []byte) uint8 {
+	for i := len(b) - 1; i >= 0; i-- {
+		if b[i] != 0 {
+			return b[i]
+		}
+	}
+
+	return 0
+}
+
 // vfC07Session: one generated session scanned passively, plus epoch-0 application data injection.
 func vfC07Session(t *testing.T, res *vfResult, idx int, suite vfSuiteInfo) {
 	r := vfRand("C07", idx)
@@ -231,6 +247,12 @@ func vfC07Session(t *testing.T, res *vfResult, idx int, suite vfSuiteInfo) {
 		}
 	}
 	early := mask.Faults() == 0
+	// (sessions that get a record injected mid-handshake start their writers afterwards: the handshake may fail,
+	// and writers parked on the handshake mutex would then freeze the bubble's clock)
+	mid := early && idx%3 == 0
+	if mid {
+		early = false
+	}
 	if early {
 		startWriters()
 		res.Count("sessions_with_writers_before_handshake", 1)
@@ -238,9 +260,50 @@ func vfC07Session(t *testing.T, res *vfResult, idx int, suite vfSuiteInfo) {
 	// epoch-0 application data injected during the handshake and after it
 	marker := append([]byte("epoch0-appdata-"), vfRandBytes(r, 16)...)
 	inj := vfLegacyRecord(23, 0xfefd, 0, uint64(40+r.IntN(10)), nil, -1, marker)
+	// every third perfect-network session: the same kind of record, with its own marker, arrives in the middle of
+	// the handshake (after the k-th datagram for the victim)
+	var midMarker []byte
+	midVictim := p.C
+	if mid {
+		midMarker = append([]byte("epoch0-midhandshake-"), vfRandBytes(r, 16)...)
+		midRec := vfLegacyRecord(23, 0xfefd, 0, uint64(60+r.IntN(10)), nil, -1, midMarker)
+		if idx%2 == 0 {
+			midVictim = p.S
+		}
+		k := 1 + (idx/6)%5
+		var cnt atomic.Int64
+		n.SetOnSend(func(n *vfNet, w *vfWire) {
+			n.Deliver(w.Dst, w.Data, vfAddrOf(w.From))
+			if w.Dst == string(midVictim.EP.addr) && cnt.Add(1) == int64(k) {
+				n.Deliver(w.Dst, midRec, vfAddrOf(w.From))
+			}
+		})
+		res.Count("epoch0_appdata_injected_mid_handshake", 1)
+	}
+	midCheck := func() {
+		if midMarker == nil {
+			return
+		}
+		buf := make([]byte, 4096)
+		_ = midVictim.Conn.SetReadDeadline(time.Now().Add(200 * time.Millisecond))
+		for i := 0; i < 4; i++ {
+			nr, err := midVictim.Conn.Read(buf)
+			if err != nil {
+				break
+			}
+			if bytes.Contains(buf[:nr], midMarker[:24]) {
+				res.Violate("C07:epoch0-application-data-delivered:mid-handshake:"+map[bool]string{true: "dtls13", false: "dtls12"}[vfIs13(p.C.Conn)],
+					fmt.Sprintf("session/%s: application data that arrived in an unprotected epoch-0 record during the handshake was returned by Read on %s", cfg.FP(), midVictim.Name), nil)
+			}
+		}
+		_ = midVictim.Conn.SetReadDeadline(time.Time{})
+	}
 	cerr, serr := p.Handshake(5 * time.Minute)
 	if cerr != nil || serr != nil {
 		res.Count("handshake_failed", 1)
+		if midMarker != nil {
+			res.Count("mid_handshake_injection_ended_handshake", 1)
+		}
 		wg.Wait()
 		vfWireConfidentiality(res, p, cfg, payloads, "failed-handshake/"+cfg.FP(), map[string]any{"cfg": cfg, "mask": mask, "case": idx})
 		p.Close()
@@ -249,6 +312,7 @@ func vfC07Session(t *testing.T, res *vfResult, idx int, suite vfSuiteInfo) {
 		return
 	}
 	n.SetOnSend(nil)
+	midCheck()
 	p.C.StartPump()
 	p.S.StartPump()
 	if !early {
